@@ -58,8 +58,9 @@ var (
 	stubErrs    [nMethods]error
 	stubReaders [nMethods]*sentReader
 	stubWriters [nMethods]*sentWriter
-	customErr   = errors.New("custom constructor error")
-	nilSeq      bool // listing stubs answer with a nil sequence (a value like any other: relayed as it is)
+	customErr         = errors.New("custom constructor error")
+	ctorErr     error = customErr // what the custom error constructor answers with: the table relays it, whatever it is
+	nilSeq      bool              // listing stubs answer with a nil sequence (a value like any other: relayed as it is)
 )
 
 func init() {
@@ -84,7 +85,7 @@ func build(mask uint32, custom bool, rec *recorder) *ociregistry.Funcs {
 	if custom {
 		f.NewError = func(ctx context.Context, methodName, repo string) error {
 			rec.newErr = append(rec.newErr, call{ctxVal: ctx.Value(ctxKey{}), args: []any{methodName, repo}})
-			return customErr
+			return ctorErr
 		}
 	}
 	has := func(i int) bool { return mask&(1<<i) != 0 }
@@ -503,6 +504,21 @@ func main() {
 		default:
 			stubErrs[m] = fmt.Errorf("stub error of %s", methodNames[m])
 		}
+		// the constructor's answer: a fixed value, one that wraps the default kind, one made for this call,
+		// or none at all (a table that lets some operations pass silently)
+		switch ck := ((mask*131 + uint32(m)*2246822519 + uint32(salt)*40503) >> 10) % 5; ck {
+		case 1:
+			ctorErr = fmt.Errorf("constructor: %w", ociregistry.ErrUnsupported)
+		case 2:
+			ctorErr = fmt.Errorf("constructor error made for call %d", salt)
+		case 3:
+			ctorErr = nil
+		default:
+			ctorErr = customErr
+		}
+		if custom && !set && ctorErr == nil {
+			run.Count("refused_with_nil_from_constructor", 1)
+		}
 		nilSeq = m >= 15 && ((mask*97+uint32(m)*131+uint32(salt)*2654435761)>>11)%5 == 0
 		if nilSeq && set {
 			run.Count("delegated_nil_sequences", 1)
@@ -567,12 +583,12 @@ func main() {
 				bad("refuse-results", fmt.Sprintf("non-zero results %v returned with a refusal", res.vals))
 			}
 		}
-		if err == nil {
+		if err == nil && !(custom && ctorErr == nil) {
 			bad("refuse-error", "no error for an unset method")
 			return
 		}
 		if custom {
-			if err != customErr {
+			if err != ctorErr {
 				bad("refuse-error", fmt.Sprintf("error %v is not the constructor's value", err))
 			}
 			if len(rec.newErr) != 1 {
